@@ -258,6 +258,26 @@ def prim_clone(ex, st, callee, args, m):
     return D(ex, args[0])
 
 
+@model(r'^<&*(?:std::option::)?Option<(?:std::cmp::)?Ordering> as (?:std::cmp::)?PartialEq>::(eq|ne)$')
+def opt_ordering_eq(ex, st, callee, args, m):
+    """Option<Ordering> == Option<Ordering>"""
+    a, b = D(ex, args[0]), D(ex, args[1])
+    def od(o):
+        p = o.fields.get('Some')
+        return p[0].disc if p and isinstance(p[0], Enum) else BitVecVal(0, 64)
+    e = And(a.disc == b.disc, Or(a.disc == 0, od(a) == od(b)))
+    return e if m.group(1) == 'eq' else Not(e)
+
+
+@model(r'^<Box<.*> as (?:std::convert::)?(?:AsRef|AsMut)<.*>>::(as_ref|as_mut)$|^<Box<.*> as (?:std::ops::)?(?:Deref|DerefMut)>::(deref|deref_mut)$')
+def box_as_ref(ex, st, callee, args, m):
+    """Box<T>::as_ref / deref: the pointer inside the box"""
+    p = args[0]
+    v = p.get() if isinstance(p, Ptr) else p
+    if isinstance(v, Ptr): return v
+    return NotImplemented
+
+
 @model(r'^(?:std::mem::|core::mem::)(?:forget|drop)::<.*>$|^(?:std::mem::|core::mem::)drop$|^drop::<.*>$')
 def mem_forget(ex, st, callee, args, m):
     """drop/forget: no-op"""
